@@ -63,6 +63,8 @@ type Case struct {
 	Ulu  string `json:"ulu"`
 	Kind string `json:"kind"`
 	Name []int  `json:"name"`
+	Loc  string `json:"loc"`
+	Un   []int  `json:"un"`
 }
 
 var w *ev.Writer
@@ -210,9 +212,17 @@ func utOctets(u nasType.UniversalTimeAndLocalTimeZone) []int {
 }
 
 // encode a time, then decode the octets the library produced
+// kind = tz-database location name ("" for a fixed zone); dst = IsDST (information only: the expectation
+// comes from the instant and the total UTC offset t.Zone() at that instant)
 func universal(t time.Time) {
 	e := blank("UT")
 	e.St, e.Un = fields(t), unixParts(t)
+	if n := t.Location().String(); n != "z" {
+		e.Kind = n
+	}
+	if t.IsDST() {
+		e.Dst = 1
+	}
 	var enc nasType.UniversalTimeAndLocalTimeZone
 	guard(&e, func() {
 		enc = nasConvert.EncodeUniversalTimeAndLocalTimeZoneToNas(t)
@@ -285,6 +295,12 @@ func runCase(c Case) {
 			ev.Fatal("UT case: %v", err)
 		}
 		universalDec(o)
+	case "UTLoc": // an instant in a tz-database location
+		loc, err := time.LoadLocation(c.Loc)
+		if err != nil || len(c.Un) != 2 {
+			ev.Fatal("UTLoc case: %v", err)
+		}
+		universal(time.Unix(int64(c.Un[0])*86400+int64(c.Un[1]), 0).In(loc))
 	case "UTDecOnly":
 		var o []int
 		if err := json.Unmarshal(c.O, &o); err != nil || len(o) != 7 {
@@ -333,6 +349,32 @@ var shared = func() []int {
 	}
 	return a
 }()
+
+var tzLocations = []string{"America/New_York", "America/Chicago", "America/Los_Angeles", "America/St_Johns", "America/Sao_Paulo",
+	"Atlantic/Azores", "Europe/London", "Europe/Berlin", "Asia/Kolkata", "Asia/Kathmandu", "Australia/Adelaide", "Australia/Lord_Howe", "Pacific/Chatham"}
+
+// unix seconds of the first instant with the new offset, for every change of the UTC offset within year y
+func transitions(loc *time.Location, y int) []int64 {
+	var out []int64
+	lo := time.Date(y, 1, 1, 0, 0, 0, 0, time.UTC).Unix()
+	hi := time.Date(y+1, 1, 1, 0, 0, 0, 0, time.UTC).Unix()
+	off := func(u int64) int { _, o := time.Unix(u, 0).In(loc).Zone(); return o }
+	for u := lo; u < hi; u += 6 * 3600 {
+		if off(u) != off(u+6*3600) {
+			a, b := u, u+6*3600 // off(a) != off(b): bisect to the second
+			for b-a > 1 {
+				m := (a + b) / 2
+				if off(m) == off(a) {
+					a = m
+				} else {
+					b = m
+				}
+			}
+			out = append(out, b)
+		}
+	}
+	return out
+}
 
 func zoneText(q, dst int) []int {
 	sign := "+"
@@ -442,11 +484,29 @@ func record(out string) {
 		}
 		universal(t)
 	}
-	// real locations with daylight saving (zone text carries "+1")
-	for _, ln := range []string{"Europe/Berlin", "America/New_York", "America/St_Johns", "Australia/Lord_Howe", "Atlantic/Azores", "Asia/Kolkata", "Pacific/Chatham", "America/Sao_Paulo"} {
+	// real tz-database locations: west and east of Greenwich, 60- and 30-minute daylight saving, none.
+	// Per location and year: a winter and a summer instant, the instants around every change of the
+	// UTC offset (transition -1 h, -1 s, the transition, +1 s, +1 h), and seeded instants.
+	yearStep := 4
+	if thorough {
+		yearStep = 1
+	}
+	for li, ln := range tzLocations {
 		loc, err := time.LoadLocation(ln)
 		if err != nil {
-			ev.Fatal("tzdata: %v", err)
+			ev.Fatal("tz database: %v", err)
+		}
+		for y := 2000 + (li+int(ev.Seed()))%yearStep; y <= 2099; y += yearStep {
+			universal(time.Date(y, 1, 15, 10, 20, 30, 0, loc))
+			universal(time.Date(y, 7, 4, 12, 34, 56, 0, loc))
+			for _, tr := range transitions(loc, y) {
+				for _, d := range []int64{-3600, -1, 0, 1, 3600} {
+					t := time.Unix(tr+d, 0).In(loc)
+					if t.Year() >= 2000 && t.Year() <= 2099 {
+						universal(t)
+					}
+				}
+			}
 		}
 		for i := 0; i < 40; i++ {
 			t := time.Unix(base+rng.Int63n(span), 0).In(loc)
